@@ -195,8 +195,17 @@ class CuckooWorld(Scenario):
                 out["msg"] = "expand" if "expand" in str(e) else "full"
             except (HarnessError, Violation):
                 raise
-            except Exception as e:  # any other exception: effect indeterminate
-                out["r"] = "exc:" + type(e).__name__
+            except Exception as e:
+                # CuckooFilterFullError is the one documented refusal; anything else raised by a valid call means the
+                # call the properties speak about produced no result
+                from ..core import _raised_in_library
+
+                where = _raised_in_library(e)
+                if where is None:
+                    raise
+                raise Violation("unexpected_exception", f"{op} raised {type(e).__name__}: {e} at {where} "
+                                                        f"(decisions so far {sched.consumed})",
+                                {"class": self.cls.__name__, "op": op, "exception": type(e).__name__})
         finally:
             self.sr.disarm()
         out["dec"] = list(sched.consumed)
